@@ -136,6 +136,7 @@ func corpusSQL() []*modSpec {
 			Files: append([]modFile{{"models.go", src}}, extra...)}
 	}
 	return []*modSpec{
+		mk("sql-fields-that-are-not-columns-before-the-id", "package models\n\ntype IdUser int64\n\ntype User struct {\n\tdirty bool\n\tcache []int\n\tId IdUser\n\tName string\n\tAge int16\n}\n\ntype IdPost int64\n\ntype Post struct {\n\tTitle string\n\tloaded bool\n\tId IdPost\n\tIdUser IdUser\n}\n"),
 		mk("sql-basic-kinds", "package models\n\nimport \"time\"\n\ntype IdT int64\n\ntype T struct {\n\tId IdT\n\tB bool\n\tI int\n\tI16 int16\n\tU8 uint8\n\tI64 int64\n\tF float64\n\tF32 float32\n\tS string\n\tT time.Time\n\tBytes []byte\n\tu int\n}\n"),
 		mk("sql-snake-names", "package models\n\ntype HTTPServer struct{ Id int64; A int }\ntype UserID2Name struct{ Id int64; A int }\ntype A struct{ Id int64; A int }\ntype ABTest struct{ Id int64; A int }\ntype Myapi2 struct{ Id int64; A int }\n"),
 		mk("sql-nullable", "package models\n\nimport (\n\t\"database/sql\"\n\t\"time\"\n)\n\ntype IdT int64\ntype OptT struct {\n\tId IdT\n\tValid bool\n}\ntype NullDate struct {\n\tValid bool\n\tD Date\n}\ntype Date time.Time\ntype NotNull struct {\n\tValid bool\n\tX int\n\tY int\n}\ntype NullStruct struct {\n\tValid bool\n\tP struct2\n}\ntype struct2 struct{ A string }\n\ntype T struct {\n\tId IdT\n\tA sql.NullInt64\n\tB sql.NullString\n\tC OptT\n\tD NullDate\n\tE NotNull\n\tF NullStruct\n\tG sql.NullTime\n}\n"),
